@@ -19,12 +19,35 @@ package scen
 // returned nil and its own Sync was not failed by injection. Nothing more is
 // demanded: an unsynced or unacknowledged write may be lost at a crash.
 //
+// Overlapping resets (c20H.overlapReset): while a reset runs, further
+// ResetCids calls are a generated operation at every phase of the running
+// reset (slot preparation, bulk copy with keys staged by concurrent puts, the
+// sync that ends the bulk copy, the recount, the catch-up drain, swap and
+// teardown). "A reset replaces the contents by the supplied keys plus every
+// key whose Put was acknowledged during the reset ... never a mixture or a
+// partial set, and its reported size matches": two resets cannot both keep
+// that promise over the same pair of slots, so the second call has to be
+// refused, and a refused call is not a reset - it supplies nothing, replaces
+// nothing. The model therefore treats it as a no-op; whatever it disturbs in
+// the running reset shows up in the existing clauses (lin-*: results after the
+// reset; reset-atomicity / reopen-size: content and Size() after a reopen).
+// New rules: overlap-reset-accepted (the call was taken up as a second reset
+// although the first one had been acknowledged as started and had not
+// returned: clause "never a mixture") and overlap-reset-hang (liveness: the
+// call neither returned nor reacted to the cancellation of its context). A
+// call that finds the worker busy (it could only be queued behind the running
+// reset's own worker-side step or behind a client operation) is withdrawn by
+// cancelling its context inside the same scheduler step - so the worker never
+// has an overlapping start request and another request ready at once, and
+// the outcome (refused / withdrawn) is a function of the schedule alone.
+//
 // Schedules that would hit a select with two ready cases inside the keystore
 // (worker: requests vs. reset operations vs. close; withAltDs: token vs.
 // cancelled context) are not generated - see the gating comments below.
 
 import (
 	"context"
+	"errors"
 	"fmt"
 	"math/bits"
 	"os"
@@ -61,6 +84,9 @@ func init() {
 		"probe_crash_in_reset_prepare", "probe_crash_in_reset_bulk", "probe_crash_in_reset_catchup", "probe_crash_in_reset_swap", "probe_crash_in_reset_teardown",
 		"probe_put_during_reset", "probe_reset_cancelled", "probe_reset_backpressure", "probe_marker_flip", "probe_reset_completed",
 		"probe_reset_tick_drain", "probe_reopen_new_content", "probe_reopen_old_content_after_reset_attempt", "probe_factory_mode", "probe_shared_mode",
+		"fault_overlap_reset", "probe_overlap_reset_refused", "probe_overlap_reset_withdrawn",
+		"probe_overlap_reset_in_prepare", "probe_overlap_reset_in_bulk", "probe_overlap_reset_in_catchup", "probe_overlap_reset_in_swap", "probe_overlap_reset_in_teardown",
+		"probe_overlap_reset_refused_after_acked_put", "probe_overlap_reset_then_reset_completed",
 	}
 	faultsF := []string{"fault_ds_error_has", "fault_ds_error_put", "fault_ds_error_query", "fault_ds_error_commit", "fault_ds_partial_commit", "fault_ds_error_sync", "probe_sync_failed_op_acknowledged", "probe_op_failed", "fault_boot_error", "probe_open_failed_on_injected_error"}
 	cat := func(a ...[]string) []string {
@@ -123,6 +149,9 @@ type c20Reset struct {
 	startStep   int
 	feeder      bool   // feeder goroutine alive
 	putKeys     uint64 // keys of puts issued while the reset runs
+	ackedPuts   int    // puts acknowledged while the reset runs
+	nOverlap    int    // overlapping ResetCids calls issued while it runs
+	nRefused    int    // ... of which the keystore refused (the others were withdrawn)
 }
 
 type c20Plan struct {
@@ -142,6 +171,7 @@ type c20ResetPlan struct {
 	crashInReset int    // crash this many steps after the reset started (-1: no)
 	crashPhase   string // crash when the reset reaches this phase ("" none) ...
 	crashDelay   int    // ... plus this many steps
+	overlapDen   int    // every step of the running reset offers an overlapping ResetCids call with chance 1/overlapDen (0: never)
 }
 
 type c20H struct {
@@ -192,7 +222,8 @@ func c20Park(op, key string) bool { return op != "batch" }
 // c20Off: development/sensitivity aid. VERIF_C20_OFF=dups,wedge,marker keeps
 // the input classes of the recorded findings out of the generated schedules
 // (duplicate keys; reset cancelled before its start is acknowledged; failure
-// of the marker write/sync at the end of a reset).
+// of the marker write/sync at the end of a reset); "overlap" switches the
+// overlapping ResetCids calls off, "boot" the start-up faults.
 func c20Off(what string) bool {
 	for _, w := range strings.Split(os.Getenv("VERIF_C20_OFF"), ",") {
 		if w == what {
@@ -532,6 +563,9 @@ func (h *c20H) planEpoch() {
 			rp.cancelAfter = s.Range("cancel-after", 0, 40)
 			rp.allowWedge = h.mode == c20Shared && s.Chance("cancel-at-start", 1, 3) && !c20Off("wedge")
 		}
+		if !c20Off("overlap") {
+			rp.overlapDen = []int{0, 3, 8, 0}[s.Draw("overlap-resets", 4)]
+		}
 		p.resets = append(p.resets, rp)
 	}
 	if len(p.resets) == 2 && p.resets[1].at < p.resets[0].at {
@@ -665,6 +699,9 @@ func (h *c20H) launch(o *c20Op) {
 		r := h.reset
 		rctx, r.cancel = context.WithCancel(ctx)
 	}
+	if o.kind == "overlap" {
+		rctx, o.cancel = context.WithCancel(ctx)
+	}
 	go func() {
 		defer func() {
 			if r := recover(); r != nil {
@@ -706,6 +743,12 @@ func (h *c20H) launch(o *c20Op) {
 			o.outN, o.err = ks.Size(ctx)
 		case "reset":
 			o.err = inst.rks.ResetCids(rctx, h.reset.ch)
+		case "overlap":
+			// a second reset that supplies no key at all: if it were taken up,
+			// the store would end up with the concurrent puts only
+			none := make(chan cid.Cid)
+			close(none)
+			o.err = inst.rks.ResetCids(rctx, none)
 		case "close":
 			o.err = ks.Close()
 		}
@@ -758,6 +801,84 @@ func (h *c20H) startReset() {
 	}()
 }
 
+// overlapReset issues one more ResetCids call while a reset is running and
+// sees it through inside this scheduler step.
+//
+// Worker idle (waiting in its select; nothing else can be ready there, or it
+// would not be idle at a quiescent point): it takes the start request at once
+// and has to refuse it. Worker busy (preparing the slot, finishing the running
+// reset, serving or buffering a client operation - in each case blocked on
+// something only this scheduler releases): the call waits to hand its start
+// request over; it is withdrawn by cancelling its context, which is then the
+// only ready case of its select. Either way nothing of the call is left when
+// the step ends, and which of the two happened follows from the state alone.
+func (h *c20H) overlapReset() {
+	s := h.s
+	r := h.reset
+	r.nOverlap++
+	o := &c20Op{n: h.nextOp, epoch: h.epoch, client: h.nClients + 2, kind: "overlap", tag: fmt.Sprintf("e%dr%dx%d", h.epoch, h.resetIdx, r.nOverlap)}
+	h.nextOp++
+	phase := h.resetPhase()
+	started := r.opStartDone
+	s.Count("fault_overlap_reset")
+	s.Count("probe_overlap_reset_in_" + phase)
+	s.Tracef("call %s (running reset: phase %s, in flight %d)", o, phase, h.inflight)
+	h.launch(o)
+	s.Quiesce()
+	withdrawn := false
+	if !o.done {
+		withdrawn = true
+		o.cancel()
+		s.Quiesce()
+	}
+	defer o.cancel()
+	if !o.done {
+		taken := false
+		for _, p := range h.parkedOf(h.inst) {
+			taken = taken || sim.TagOf(p.Ctx) == "@"+o.tag
+		}
+		if taken && started {
+			s.Violate("overlap-reset-accepted", "a ResetCids call issued while another reset was running (phase %s) was taken up as a reset of its own (it is working on the datastore): two resets over the same two slots cannot both leave their complete new set", phase)
+		} else {
+			s.Violate("overlap-reset-hang", "a ResetCids call issued while another reset was running (phase %s) neither returned nor reacted to the cancellation of its context", phase)
+		}
+		h.tainted = true
+		return
+	}
+	o.seen = true
+	o.ret = h.tick()
+	if o.panicked != "" {
+		s.Violate("op-panic", "%s panicked on the caller's goroutine: %s", o, firstLine(o.panicked))
+		return
+	}
+	switch {
+	case withdrawn && o.err != nil:
+		s.Count("probe_overlap_reset_withdrawn")
+		s.Tracef("ret %s withdrawn", o.tag)
+	case o.err == nil && started:
+		s.Tracef("ret %s ok", o.tag)
+		s.Violate("overlap-reset-accepted", "a ResetCids call issued while another reset was running (phase %s, start acknowledged, not yet returned) returned nil: it ran as a reset of its own; two resets over the same two slots cannot both leave their complete new set", phase)
+		h.tainted = true
+	case o.err == nil:
+		// Not reachable with the scheduling above (the running reset's start is
+		// handled first); nothing is claimed about it.
+		s.Tracef("ret %s ok", o.tag)
+		s.Count("overlap_reset_before_start_ack_ok")
+		h.tainted = true
+	default:
+		r.nRefused++
+		s.Count("probe_overlap_reset_refused")
+		if !errors.Is(o.err, keystore.ErrResetInProgress) {
+			s.Count("overlap_reset_refused_with_other_error")
+		}
+		if r.ackedPuts > 0 {
+			s.Count("probe_overlap_reset_refused_after_acked_put")
+		}
+		s.Tracef("ret %s refused", o.tag)
+	}
+	s.State("overlap mode=%d phase=%s withdrawn=%v puts=%d", h.mode, phase, withdrawn, min(r.ackedPuts, 2))
+}
+
 func (h *c20H) resetParked() []*sim.Parked {
 	var out []*sim.Parked
 	if h.reset == nil {
@@ -807,6 +928,7 @@ func (h *c20H) observe() {
 				}
 				if h.resetActive() && h.reset.opStartDone {
 					s.Count("probe_put_during_reset")
+					h.reset.ackedPuts++
 				}
 			}
 		} else if !o.closedErr() {
@@ -828,6 +950,9 @@ func (h *c20H) observe() {
 			if r.op.err == nil {
 				h.nResetOK++
 				s.Count("probe_reset_completed")
+				if r.nRefused > 0 {
+					s.Count("probe_overlap_reset_then_reset_completed")
+				}
 			} else {
 				h.nResetFail++
 				if r.cancelled {
@@ -948,12 +1073,21 @@ func (h *c20H) runEpoch() int {
 		}
 
 		acts := h.actions(closing)
-		if len(acts) == 1 && acts[0].ID == "tick" {
+		// An overlapping ResetCids call moves nothing forward: it does not count
+		// as progress for the wedge rule below.
+		core, hasTick := 0, false
+		for _, a := range acts {
+			if a.ID != "overlap-reset" {
+				core++
+			}
+			hasTick = hasTick || a.ID == "tick"
+		}
+		if core == 1 && hasTick {
 			onlyTick++
 		} else {
 			onlyTick = 0
 		}
-		if len(acts) == 0 || onlyTick > 60 {
+		if core == 0 || onlyTick > 60 {
 			idle++
 			if idle > 30 {
 				if h.wedgeSched {
@@ -1007,6 +1141,11 @@ func (h *c20H) actions(closing bool) []sim.Action {
 	}
 	if active && !closing {
 		r := h.reset
+		// Another ResetCids call while this one runs: in every phase, whatever
+		// else is going on (see overlapReset for why that is race-free).
+		if r.plan.overlapDen > 0 && s.Chance("overlap-reset", 1, r.plan.overlapDen) {
+			acts = append(acts, sim.Action{ID: "overlap-reset", Do: h.overlapReset})
+		}
 		idleReset := r.opStartDone && !r.cancelled && len(h.resetParked()) == 0
 		// feed only while the reset waits in its bulk-phase select: the key is
 		// taken at once, the select never has the channel and the ticker ready
@@ -1283,8 +1422,8 @@ func (h *c20H) checkHistory() {
 	}
 	var hist []*c20Op
 	for _, o := range h.ops {
-		if o.epoch != h.epoch || !o.seen || o.crashed || o.kind == "close" {
-			continue
+		if o.epoch != h.epoch || !o.seen || o.crashed || o.kind == "close" || o.kind == "overlap" {
+			continue // a refused or withdrawn ResetCids call is no operation of the model: it changes nothing
 		}
 		if o.kind == "reset" {
 			b := *o
